@@ -282,6 +282,25 @@ def case_long(case):
     return {"v": v[:4], "nt": True, "n": n, "obs": {"worst_rel_err": float(worst)}}
 
 
+def case_cache_race(case):
+    """tower shift through the result cache while two pool workers store their entries at the same time: the footprint for a
+    tower moved by whole cells is the rolled footprint of the first tower - for the workers' answers and for a later session
+    served from the directory they left behind"""
+    from vf import cacherace
+
+    S0 = sl.solver()
+    nx, ny, dom = 8, 6, (80.0, 90.0)
+    dx, dy = dom[0] / nx, dom[1] / ny
+    z, prof = sl.build_profiles("most_aniso", 4)
+    base = dict(srf_flx=np.zeros((ny, nx)), z=z, profiles=prof, domain=dom, levels=[2, 4], modes=(8, 6), halo=0.0, footprint=True, precision="double")
+    _, c0, f0 = S0(meas_pt=(0.0, 0.0), **base)  # uncached; C06's translation lattice judges it
+    reqs, expect = {}, {}
+    for label, (mj, mi) in (("tower(1,2)", (1, 2)), ("tower(4,5)", (4, 5))):
+        reqs[label] = dict(base, meas_pt=(mi * dx, mj * dy))
+        expect[label] = (np.roll(np.asarray(c0), (mj, mi), axis=(1, 2)), np.roll(np.asarray(f0), (mj, mi), axis=(1, 2)))
+    return cacherace.solver_pair(reqs, expect, 1e-9, "footprints of two towers that differ by whole cells")
+
+
 def run(ctx):
     os.environ["VERIF_SEED"] = str(ctx.seed)
     core.warm_numba()
@@ -293,3 +312,4 @@ def run(ctx):
     ctx.run_cases(case_translate, configs(ctx.tier), sub="translation", chunksize=1)
     ctx.run_cases(case_halo, halo_configs(ctx.tier), sub="halo-cropped", chunksize=1)
     ctx.run_cases(case_long, long_cases(ctx.tier), sub="off-node points on long grids", chunksize=1)
+    core.run_forked(ctx, case_cache_race, [{"pair": "shifted-towers"}], sub="tower shift through a cache two workers write at once (all interleavings, <= 2 preemptions)", nproc=4, timeout=1800)
